@@ -185,13 +185,9 @@ func templated(rng *rand.Rand, v any, env map[string]string, n *int, count func(
 		}
 		*n++
 		vn := fmt.Sprintf("V%d", *n)
-		tm := strings.Replace(strings.Replace(f.Tmpl, "${V}", "${"+vn+"}", 1), "$V", "$"+vn, 1)
-		for k, e := range f.Env {
-			if k == "V" {
-				env[vn] = e
-			} else {
-				env[k] = e
-			}
+		tm, fenv := f.named(vn)
+		for k, e := range fenv {
+			env[k] = e
 		}
 		count("leaf-" + f.Name)
 		return tm
@@ -233,6 +229,12 @@ func runC08Docs(ctx *core.Ctx) {
 		case k == 4:
 			return []any{nil, true, false, 0, 7, -1, 0.5, int(1 << 40)}[ctx.Rng.Intn(8)]
 		case k == 5:
+			switch ctx.Rng.Intn(3) {
+			case 0:
+				return c08TailTexts[ctx.Rng.Intn(len(c08TailTexts))]
+			case 1:
+				return rndTailText(ctx.Rng)
+			}
 			return []string{"$", "$$", "a$b", "${V1}", "$V1", "cost: $5", "${", "}${{", "$$$"}[ctx.Rng.Intn(9)]
 		case k < 8:
 			l := make([]any, ctx.Rng.Intn(3))
@@ -255,6 +257,10 @@ func runC08Docs(ctx *core.Ctx) {
 			text := texts[ctx.Rng.Intn(len(texts))]
 			if ctx.Rng.Intn(4) != 0 {
 				text = validTextFor(pat, ctx.Rng.Intn(1000))
+			}
+			if ctx.Rng.Intn(12) == 0 {
+				text += []string{"}", " $ }", "$}", " }"}[ctx.Rng.Intn(4)]
+				ctx.Count("doc:row-text-with-tail")
 			}
 			mergeInto(t, instantiate(pat, []string{"a", "b", "s.1"}[ctx.Rng.Intn(3)], text))
 		}
@@ -281,6 +287,22 @@ func runC08Docs(ctx *core.Ctx) {
 			lit := instantiate(pat, []string{"svc", "s.v"}[ti%2], text)
 			ctx.Count("doc-escape:row×text")
 			ctx.Add("c08castdoc", docArgs{Mode: "escape", Lit: core.EncodeVal(lit), Env: map[string]string{"V": "1", "A": "x"}})
+		}
+	}
+	// round 6, exhaustive: every tail text × cuts × every tail form, at a plain path, inside a list, at a cast row
+	for _, text := range c08TailTexts {
+		n := len([]rune(text))
+		for cut := 0; cut < ctx.Pick(24, 400); cut++ {
+			split := cut%(n+1) + 7*(n+1)*(cut%5) + 3*7*(n+1)*(cut/3) + 11*cut
+			for _, f := range tailForms(text, split) {
+				tm, env := f.named("W1")
+				mk := func(leaf string) map[string]any {
+					return map[string]any{"services": map[string]any{"a": map[string]any{"command": leaf, "entrypoint": []any{leaf, "x"}, "init": leaf},
+						"s.1": map[string]any{"labels": map[string]any{"k": leaf}}}}
+				}
+				ctx.Count("doc-vars:tail-text×" + f.Name)
+				ctx.Add("c08castdoc", docArgs{Mode: "vars", Lit: core.EncodeVal(mk(text)), Doc: core.EncodeVal(mk(tm)), Env: env})
+			}
 		}
 	}
 	for i := 0; i < ctx.Pick(2500, 100000); i++ {
